@@ -122,16 +122,17 @@ def go_build_repo_cmd(repo_pkg, out_name, timeout=1200):
 
 
 # --------------------------------------------------------------------------- Coq
-def coq_prepare():
-    rc, o = sh([os.path.join(ROOT, "scripts", "coqproject.sh")], timeout=120)
+def coq_prepare(prop):
+    rc, o = sh([os.path.join(ROOT, "scripts", "coqproject.sh"), prop], timeout=120)
     if rc != 0:
         raise CheckError("coqproject.sh failed:\n" + o)
 
 
-def coq_make(targets, timeout=3000):
-    """Full .vo build of the given targets (paths relative to coq/, .vo). Incremental."""
-    coq_prepare()
-    rc, o = sh(["make", "-j%d" % NCPU] + list(targets), cwd=COQ, timeout=timeout)
+def coq_make(targets, prop, timeout=3000):
+    """Full .vo build of the given targets (paths relative to coq/, .vo) with the property's own
+    Makefile (coq/Makefile.<prop>: lib + the property's directory + imported ones). Incremental."""
+    coq_prepare(prop)
+    rc, o = sh(["make", "-f", "Makefile." + prop, "-j%d" % NCPU] + list(targets), cwd=COQ, timeout=timeout)
     return rc == 0, o
 
 
@@ -154,7 +155,7 @@ def coq_check_theorems(prop_dir, thm_file, timeout=1800):
         res["failed"] = names
         res["log"] = "forbidden constructs: " + "; ".join(bad)
         return res
-    ok, o = coq_make([rel[:-2] + ".vo"], timeout=timeout)
+    ok, o = coq_make([rel[:-2] + ".vo"], prop_dir, timeout=timeout)
     if not ok:
         res["log"] = o[-4000:]
         res["failed"] = names
@@ -266,7 +267,7 @@ def build_model(prop, extract_v, driver_ml, timeout=1800):
     for m in re.finditer(r"From\s+V\.(\w+)\s+Require\s+(?:Import|Export)\s+([^.]+)\.", src_txt):
         for nm in m.group(2).split():
             deps.append("%s/%s.vo" % (m.group(1), nm))
-    ok, o = coq_make(deps, timeout=timeout)
+    ok, o = coq_make(deps, prop, timeout=timeout)
     if not ok:
         return None, "building the model's .vo files failed:\n" + o[-3000:]
     rc, o = sh(["coqc", "-Q", COQ, "V", "-o", os.path.join(d, os.path.basename(ex_src)[:-2] + ".vo"), ex_src],
@@ -300,10 +301,19 @@ def run_model(exe, cases_text, timeout=1800):
 
 # --------------------------------------------------------------------------- known findings
 def load_known():
+    """known_findings.json plus known_findings/<ID>.json (one file per property so that they can be
+    maintained independently). Entries: {property, id, status: known|fixed, site, class, witness,
+    description, commit?}. Never written at run time."""
+    out = []
     p = os.path.join(ROOT, "known_findings.json")
-    if not os.path.exists(p):
-        return []
-    return json.load(open(p)).get("findings", [])
+    if os.path.exists(p):
+        out += json.load(open(p)).get("findings", [])
+    d = os.path.join(ROOT, "known_findings")
+    if os.path.isdir(d):
+        for f in sorted(os.listdir(d)):
+            if f.endswith(".json"):
+                out += json.load(open(os.path.join(d, f))).get("findings", [])
+    return out
 
 
 # --------------------------------------------------------------------------- the check context
